@@ -100,6 +100,10 @@ func init() {
 		m["nd:ndAddr"] = atom(20)
 		m["nd:ndHash"] = atom(32)
 		m["nd:ndString"] = atom(16)
+		m["nd:ndHexVal"] = func(ex *Exec, fr *frame, cc *ssa.CallCommon, a []Value) Value {
+			t := ex.ndInt(symName(a[0]), big.NewInt(0), nil)
+			return VStr{Atom: &t, HexNum: true}
+		}
 		m["nd:ndBytesN"] = func(ex *Exec, fr *frame, cc *ssa.CallCommon, a []Value) Value {
 			t := ex.ndInt(symName(a[0]), big.NewInt(0), big.NewInt(1<<40))
 			return VStr{Atom: &t, N: cint(a[1])}
